@@ -161,9 +161,16 @@ func (e *Env) VF() *starlarkstruct.Module {
 		}),
 		"emit": b("emit", func(thread *starlark.Thread, args starlark.Tuple) (starlark.Value, error) {
 			stdout, _ := util.Stdio(thread)
+			// one buffer reused for every chunk and scribbled over after each Write, as a process
+			// pipe copied with io.Copy behaves (a Writer must not retain the slice it is given)
+			buf := make([]byte, 0, 256)
 			for _, a := range args {
-				if _, err := stdout.Write([]byte(str(a))); err != nil {
+				buf = append(buf[:0], str(a)...)
+				if _, err := stdout.Write(buf); err != nil {
 					return nil, err
+				}
+				for i := range buf {
+					buf[i] = '#'
 				}
 			}
 			return starlark.None, nil
